@@ -218,6 +218,16 @@ def ob_service_found(vc):
                 vc.check(not f.matches_service(slot[1]), "_service_found.false_only_if_no_stored_offer_matches")
 
 
+def canary_not_found_means_empty_store(vc):
+    """must be refuted: 'no stored offer matches the filter' does not mean 'nothing is stored'
+    (guards the quantifier treatment of any() against vacuity)"""
+    w = C05.DWorld(vc, register=False, track=("X_Sx",))
+    f = SCFG.gen_service(vc, "F", with_options=False)
+    r = w.disc._service_found(f)
+    if not vc.native and not r:
+        vc.check(w.slots[(w.X, w.Sx)] is None, "canary")
+
+
 def ob_discover_start(vc):
     loop = vc.install_loop(LL.FakeLoop(vc.real("now", 0)))
     prot, sent = SS.gen_sd_protocol(vc, "prot")
@@ -229,5 +239,5 @@ def ob_discover_start(vc):
     vc.check_eq(len(sent), 0, "discover.start.sends_nothing_itself")
 
 
-HARNESSES = [SCFG.ob_create_find_entry_refines, SCFG.ob_matches_service_refines, ob_service_found, ob_send_find_services, ob_discover_start, C05.ob_handle_offer, C05.ob_expiry]
+HARNESSES = [SCFG.ob_create_find_entry_refines, SCFG.ob_matches_service_refines, ob_service_found, ob_send_find_services, ob_discover_start, C05.ob_handle_offer, C05.ob_expiry, canary_not_found_means_empty_store]
 EXPECT_COVERS = {"ob_send_find_services": ["nothing-watched", "all-found", "all-rounds", "element"], "ob_service_found": ["found", "not-found", "stored-offer"]}
